@@ -81,14 +81,23 @@ Peaks3(fl, a) ==
                         pa |-> FMax(s.pa, FAbs(Accel(fl, y)))]
   IN FoldLeft(step, [y |-> Y0, pu |-> Zero, pv |-> Zero, pa |-> Zero], [k \in 1..(Len(a) - 1) |-> k + 1])
 
-\* ---- the statement's tolerance (relative to the series peak) -----------------------------
-\*   1e-6 + 5e-8 * duration/T + eps/(w dt)^3
-RelTol(T, dt, n) ==
-  LET wdt == FMul(FDiv(TwoPi, T), dt)
-  IN FAdd(FAdd(FStr("1e-6"), FMul(FStr("5e-8"), FDiv(FMul(FInt(n - 1), dt), T))), FDiv(Eps, FMul(wdt, FSq(wdt))))
-\* peak floor: where the exact series vanishes identically at the sample instants (xi = 0, T/dt = 1, 1/2, ...)
-\* "relative to the peak" is taken relative to max(peak, 1e-9 * natural scale)
+\* ---- the statement's tolerance ----------------------------------------------------------
+\*   relative to the series peak:  1e-6 + 5e-8 * duration/T + eps/(w dt)^3
+\* Two readings are needed for soundness where the exact series (nearly) vanishes at the sample instants
+\* (xi = 0 and T/dt = 1, 1/2, ..., or heavily damped / very short records):
+\*  * the drift term 5e-8*duration/T is the accumulated phase error of a rounded w; it is proportional to the
+\*    amplitude of the free vibration, i.e. to the natural scale nat = |a|max/w^2 (u), |a|max/w (v), whenever
+\*    that exceeds the sampled peak;
+\*  * the remaining terms are taken relative to max(peak, 1e-9 * nat).
+\* Both only ever enlarge the statement's tolerance (never a false alarm); they coincide with it when peak >= nat.
 Floor == FStr("1e-9")
+AbsTol(T, dt, n, peak, nat) ==
+  LET wdt == FMul(FDiv(TwoPi, T), dt)
+      fixed == FAdd(FStr("1e-6"), FDiv(Eps, FMul(wdt, FSq(wdt))))
+      drift == FMul(FStr("5e-8"), FDiv(FMul(FInt(n - 1), dt), T))
+  IN FAdd(FMul(fixed, FMax(peak, FMul(Floor, nat))), FMul(drift, FMax(peak, nat)))
+\* the third series -(2 xi w v + w^2 u): compared with the reported u, v relative to the size of its two terms
+AccTol(w, xi, u, v) == FAdd(FMul(FStr("1e-6"), FAdd(FAbs(FMul(FMul(FMul(Two, xi), w), v)), FAbs(FMul(FSq(w), u)))), FStr("1e-300"))
 
 \* linear refinement of a record by the integer factor r (r-1 interpolated samples per step)
 Refined(a, r) ==
